@@ -188,6 +188,11 @@ def _failing_cleanup(which='function'):
     raise RuntimeError('cleanup %s fails' % which)
 
 
+def _cancelled_cleanup():
+    import asyncio
+    raise asyncio.CancelledError('the cleanup looked at a cancelled future')
+
+
 class _FailingCleanup:
     def __call__(self):
         raise RuntimeError('cleanup object fails')
@@ -438,6 +443,11 @@ class Run:
                 proc.add_cleanup(_failing_cleanup)
                 proc.add_cleanup(functools.partial(_failing_cleanup, 'partial'))
                 proc.add_cleanup(_FailingCleanup())
+                if case.get('failing_cleanups') == 'base':
+                    # ... and one that raises asyncio's CancelledError (it looked at a cancelled future): not an Exception, a failing
+                    # cleanup all the same -- the ones registered after it run as well
+                    proc.add_cleanup(_cancelled_cleanup)
+                proc.add_cleanup(lambda: self.rec.ev('cleanup-after-failing'))
             if case.get('listener', True):
                 # ('raising-terminal': broken only in its handling of the three endings)
                 raising = {'raising': True, 'raising-terminal': 'terminal', 'checkpointing': 'checkpointing', 'raising-base': 'base-terminal', 'detaching': 'detaching'}.get(case.get('listener'), False)
